@@ -49,7 +49,7 @@ VARIABLES
     done
 tvars == <<i, run, c04, real, exact, bad, nbad, seen, heap, hknown, drift, done>>
 
-Names == {"Aligned", "Disjoint", "Accessible", "Intact", "NullJustified", "OomClean", "Returns",
+Names == {"Aligned", "Disjoint", "Accessible", "Intact", "PrivateAnonymous", "NullJustified", "OomClean", "Returns",
           "ReleaseOnce", "NoGratuitousMap", "SteadyState", "MarksSteady", "Envelope"}
 
 AtEnd == obs.ev = "end"
@@ -58,6 +58,7 @@ Holds(n) ==
       [] n = "Disjoint"        -> DisjointStep /\ (AtEnd => Disjoint)
       [] n = "Accessible"      -> real \/ (AccessibleStep /\ (AtEnd => Accessible))
       [] n = "Intact"          -> Intact
+      [] n = "PrivateAnonymous" -> PrivateAnonymous
       [] n = "NullJustified"   -> NullJustified
       [] n = "OomClean"        -> OomClean
       [] n = "Returns"         -> obs.ev \notin {"panic", "crash", "timeout"}
@@ -82,6 +83,7 @@ Apply(e) ==
       [] e.ev = "call"  -> BeginEff(e.op, e.id, e.size, e.align)
       [] e.ev = "os" /\ e.call = "mmap" ->
             IF e.off < 0 THEN RefuseEff ELSE MapEff(e.off, e.size)
+      [] e.ev = "os" /\ e.call = "mapinfo" -> MapInfoEff(e.private, e.anon, e.rw)
       [] e.ev = "os" /\ e.call = "munmap" ->
             IF e.size = 0 THEN Mark("noop") ELSE UnmapEff(e.off, e.off + e.size)
       [] e.ev = "os" /\ e.call = "remap" ->
